@@ -26,6 +26,7 @@ type e2eScn struct {
 	dups         bool
 	depthLimit   int64 // 0 = whole DAG
 	customStore  bool
+	storeViaCfg  bool // pull only: the per-channel store comes from a transport configurer (survives a process restart) instead of an open option
 	forcePause   bool
 	limits       []uint64 // initial limit and raises; a trailing 0 lifts the limit
 	reqFinal     bool
@@ -41,8 +42,8 @@ func (s e2eScn) String() string {
 	if s.pull {
 		dir = "pull"
 	}
-	return fmt.Sprintf("%s dups=%v depthLimit=%d customStore=%v forcePause=%v limits=%v finalization=%v pauseAfter=%d voucherAfter=%d fault=%q@%d atOpen=%v",
-		dir, s.dups, s.depthLimit, s.customStore, s.forcePause, s.limits, s.reqFinal, s.pauseAfter, s.voucherAfter, s.fault, s.faultAtLimit, s.faultAtOpen)
+	return fmt.Sprintf("%s dups=%v depthLimit=%d customStore=%v(viaConfigurer=%v) forcePause=%v limits=%v finalization=%v pauseAfter=%d voucherAfter=%d fault=%q@%d atOpen=%v",
+		dir, s.dups, s.depthLimit, s.customStore, s.storeViaCfg, s.forcePause, s.limits, s.reqFinal, s.pauseAfter, s.voucherAfter, s.fault, s.faultAtLimit, s.faultAtOpen)
 }
 
 const e2eCaseTimeout = 3 * time.Second
@@ -91,6 +92,12 @@ func runE2E(t *rapid.T, scn e2eScn, w *e2eWorld, pl payload, sel datamodel.Node,
 			return []datatransfer.TransportOption{gstransport.UseStore(custom.linkSystem(false))}
 		}
 		_ = b.mgr.RegisterTransportConfigurer(e2eType, b.configurer)
+	}
+	if scn.customStore && scn.pull && scn.storeViaCfg {
+		a.configurer = func(datatransfer.ChannelID, datatransfer.TypedVoucher) []datatransfer.TransportOption {
+			return []datatransfer.TransportOption{gstransport.UseStore(custom.linkSystem(false))}
+		}
+		_ = a.mgr.RegisterTransportConfigurer(e2eType, a.configurer)
 	}
 	// responder controller
 	b.mu.Lock()
@@ -235,7 +242,7 @@ func runE2E(t *rapid.T, scn e2eScn, w *e2eWorld, pl payload, sel datamodel.Node,
 	// open
 	v := datatransfer.TypedVoucher{Type: e2eType, Voucher: basicnode.NewString("open")}
 	var opts []datatransfer.TransferOption
-	if scn.customStore && scn.pull {
+	if scn.customStore && scn.pull && !scn.storeViaCfg {
 		opts = append(opts, datatransfer.WithTransportOptions(gstransport.UseStore(custom.linkSystem(false))))
 	}
 	var err error
@@ -357,8 +364,9 @@ func faultKinds(scn e2eScn, sp *stats.Prop) []string {
 		// excluded by construction (and counted) so that the search goes on behind it.
 		sp.Class("excluded_known_push_responder_process_restart")
 	}
-	if !(scn.customStore && scn.pull) {
+	if !(scn.customStore && scn.pull && !scn.storeViaCfg) {
 		// options passed to OpenPull live in memory only: a restarted initiator cannot know the per-channel store
+		// (a store supplied by a registered transport configurer is known to every manager lifetime)
 		kinds = append(kinds, "process-restart-initiator")
 	}
 	return kinds
@@ -373,6 +381,7 @@ func TestC01_E2E(t *testing.T) {
 			pull:        rapid.Bool().Draw(t, "pull"),
 			dups:        rapid.Bool().Draw(t, "dups"),
 			customStore: rapid.IntRange(0, 2).Draw(t, "customStore") == 0,
+			storeViaCfg: rapid.Bool().Draw(t, "storeViaConfigurer"),
 			forcePause:  rapid.IntRange(0, 4).Draw(t, "forcePause") == 0,
 			reqFinal:    rapid.IntRange(0, 2).Draw(t, "finalization") == 0,
 		}
@@ -386,7 +395,8 @@ func TestC01_E2E(t *testing.T) {
 				if os.Getenv("VERIF_PROP") == "C20" {
 					key = "C20/stop-did-not-return"
 				}
-				mfail(t, nil, key, "stopping the two nodes did not return within %s (goroutines blocked inside the library)", watchdog)
+				lib := libraryStacks()
+				mfail(t, lib, key, "stopping the two nodes did not return within %s (goroutines blocked inside the library)", watchdog)
 			}
 		}()
 		senderStore := w.a.store
@@ -441,8 +451,25 @@ func TestC01_E2E(t *testing.T) {
 		if rapid.IntRange(0, 4).Draw(t, "extraVoucher") == 0 {
 			scn.voucherAfter = rapid.IntRange(1, 3).Draw(t, "voucherAfter")
 		}
-		class, key, msg, log := runE2E(t, scn, w, pl, sel, order, uniqueSize)
 		desc := fmt.Sprintf("scenario %s; payload %d blocks (%d positions selected, %d distinct, %d bytes)", scn, pl.blocks, len(order), len(sums), uniqueSize)
+		// the whole scenario runs under a watchdog: every wait inside it is bounded by
+		// seconds, so a scenario that takes longer than this is blocked inside a call
+		var class, key, msg string
+		var log []string
+		scnDone := make(chan struct{})
+		go func() {
+			defer close(scnDone)
+			class, key, msg, log = runE2E(t, scn, w, pl, sel, order, uniqueSize)
+		}()
+		select {
+		case <-scnDone:
+		case <-time.After(4 * watchdog):
+			k := "HARNESS/scenario-blocked"
+			if os.Getenv("VERIF_PROP") == "C20" {
+				k = "C20/call-did-not-return"
+			}
+			mfail(t, append([]string{desc}, libraryStacks()...), k, "the scenario did not finish within %s: a call into the library did not return", 4*watchdog)
+		}
 		if class == "violation" {
 			full := append([]string{desc}, log...)
 			for _, side := range []*e2eNode{w.a, w.b} {
@@ -495,6 +522,9 @@ func TestC01_E2E(t *testing.T) {
 			if scn.customStore {
 				sp.Class("completed_with_per_channel_store")
 			}
+			if scn.customStore && scn.pull && scn.storeViaCfg && scn.fault == "process-restart-initiator" {
+				sp.Class("completed_pull_with_configured_store_after_initiator_process_restart")
+			}
 			if scn.pauseAfter > 0 {
 				sp.Class("completed_with_user_pause")
 			}
@@ -514,4 +544,22 @@ func TestC01_E2E(t *testing.T) {
 			}
 		}
 	})
+}
+
+// libraryStacks returns the stacks of the goroutines that are inside the library
+// (and saves the complete dump next to the run's other files).
+func libraryStacks() []string {
+	var lib []string
+	dump := allStacks()
+	if dir := os.Getenv("VERIF_WORKDIR"); dir != "" {
+		_ = os.WriteFile(dir+"/goroutines-when-blocked.txt", []byte(dump), 0o644)
+	} else if os.Getenv("VERIF_E2E_DEBUG") != "" {
+		_ = os.WriteFile(os.TempDir()+"/goroutines-when-blocked.txt", []byte(dump), 0o644)
+	}
+	for _, g := range strings.Split(dump, "\n\n") {
+		if strings.Contains(g, "go-data-transfer/v2") && !strings.Contains(g, "go-statemachine.(*StateMachine).run") {
+			lib = append(lib, g)
+		}
+	}
+	return lib
 }
